@@ -101,30 +101,45 @@ def combine_batch(tables_path, out_path, workdir):
                                  out_dir=os.path.join(workdir, "out", "o"), temp_dir=os.path.join(workdir, "out", "t"),
                                  is_mse=False, fnprior_prefix="aifeyn_", combineDL_prefix="combine_DL_", final_prefix="final_")
     results = []
-    for t in tables:
-        if rank == 0:
+    def write_inputs(t, fresh):
+        if fresh:
             shutil.rmtree(workdir, ignore_errors=True)
             os.makedirs(os.path.join(like.fn_dir, "compl_%d" % n))
             os.makedirs(like.out_dir)
             os.makedirs(like.temp_dir)
-            d = os.path.join(like.fn_dir, "compl_%d" % n)
-            with open(os.path.join(d, "unique_equations_%d.txt" % n), "w") as f:
-                f.write("".join("u%d*x\n" % u for u in range(t["U"])))
-            with open(os.path.join(d, "all_equations_%d.txt" % n), "w") as f:
-                f.write("".join("v%d+x\n" % (k + 1) for k in range(len(t["tab"]))))
-            with open(os.path.join(d, "aifeyn_%d.txt" % n), "w") as f:
-                f.write("".join("%s\n" % _tok(v["tlen"]) for v in t["tab"]))
-            with open(os.path.join(like.out_dir, "codelen_matches_comp%d.dat" % n), "w") as f:
-                for k, v in enumerate(t["tab"]):
-                    nll = v["nll"] + t.get("off", 0) if v["nll"] not in (1000, -1) else v["nll"]     # off: common shift of every finite likelihood
-                    f.write(" ".join(["%.7e" % nll if nll not in (1000, -1) else _tok(nll), _tok(v["plen"]), "%.7e" % v["idx"], "%.7e" % (k + 1), "%.7e" % 0, "%.7e" % 0, "%.7e" % 0]) + "\n")
-        comm.Barrier()
+        d = os.path.join(like.fn_dir, "compl_%d" % n)
+        with open(os.path.join(d, "unique_equations_%d.txt" % n), "w") as f:
+            f.write("".join("u%d*x\n" % u for u in range(t["U"])))
+        with open(os.path.join(d, "all_equations_%d.txt" % n), "w") as f:
+            f.write("".join("v%d+x\n" % (k + 1) for k in range(len(t["tab"]))))
+        with open(os.path.join(d, "aifeyn_%d.txt" % n), "w") as f:
+            f.write("".join("%s\n" % _tok(v["tlen"]) for v in t["tab"]))
+        with open(os.path.join(like.out_dir, "codelen_matches_comp%d.dat" % n), "w") as f:
+            for k, v in enumerate(t["tab"]):
+                nll = v["nll"] + t.get("off", 0) if v["nll"] not in (1000, -1) else v["nll"]     # off: common shift of every finite likelihood
+                f.write(" ".join(["%.7e" % nll if nll not in (1000, -1) else _tok(nll), _tok(v["plen"]), "%.7e" % v["idx"], "%.7e" % (k + 1), "%.7e" % 0, "%.7e" % 0, "%.7e" % 0]) + "\n")
+
+    for t in tables:
         err = None
+        if t.get("pre"):
+            # the stage was run before in the same output directory on another table (a repeated fit under the same run name)
+            if rank == 0:
+                write_inputs({"U": t["U"], "tab": t["pre"]}, True)
+            comm.Barrier()
+            try:
+                with contextlib.redirect_stdout(io.StringIO()):
+                    cdl.main(n, like)
+            except Exception as e:
+                err = "earlier run: %s: %s" % (type(e).__name__, e)
+            comm.Barrier()
+        if rank == 0:
+            write_inputs(t, not t.get("pre"))
+        comm.Barrier()
         try:
             with contextlib.redirect_stdout(io.StringIO()):
                 cdl.main(n, like)
         except Exception as e:                       # the stage must not raise on any table
-            err = "%s: %s" % (type(e).__name__, e)
+            err = err or "%s: %s" % (type(e).__name__, e)
         errs = comm.gather(err, root=0)
         if rank == 0:
             p = os.path.join(like.out_dir, "final_%d.dat" % n)
